@@ -213,6 +213,11 @@ class SymCtx(_CtxBase):
     def len(self, o):
         return M._len(self.it, o)
 
+    def is_none(self, v):
+        if isinstance(v, M.OptInt):
+            return mk_bool(v.isnone)
+        return v is None
+
     def setattr(self, o, name, v):
         try:
             self.it.setattr(o, name, v)
@@ -435,6 +440,9 @@ class NatCtx(_CtxBase):
 
     def len(self, o):
         return len(o)
+
+    def is_none(self, v):
+        return v is None
 
     def setattr(self, o, name, v):
         try:
